@@ -21,7 +21,7 @@ def helper_jobs(widths) -> List[tuple]:
 
 def validity_jobs() -> List[tuple]:
     """the segment-list functions against the DEFINITION of the ghost valid-set V (width independent)"""
-    return [(C01c.unit_validity, (n,)) for n in VALIDITY]
+    return [(C01c.unit_validity, (n,)) for n in VALIDITY] + [(C01c.unit_add_segment, ())]
 
 
 def add_native_functions(rep: Report, names, inst: str) -> None:
@@ -35,7 +35,7 @@ def add_native_functions(rep: Report, names, inst: str) -> None:
 def native_assumptions(rep: Report) -> None:
     rep.assume('[A] mem_get_page / mem_grow_slots (open-addressing page table): returns the page of that index, allocating a zero page if absent (its fast-valid range comes from page_compute_validity, whose soundness IS verified where unit_validity runs: C07), refills cache slot index&15, or NULL with a python error and no change; the hash table itself is exercised by the bounded runs only')
     rep.assume('[A] CPython API: PyObject_Call* return a new reference or NULL with an exception set; PyObject_IsTrue returns 0/1/-1; PyErr_CheckSignals returns 0 or -1 with an exception; Py_DECREF releases one reference')
-    rep.assume('ghost V is DEFINED as the union of the listed segment ranges; word_is_valid / flat_seg_contains / page_compute_validity / mem_ensure_segments_sorted are verified against that definition with loop invariants (unit_validity, run under C07); [A] qsort with segment_compare returns a permutation ordered by start; [A] segment_count <= segment_capacity < 2^40 and no segment is added during a run')
+    rep.assume('ghost V is DEFINED as the union of the listed segment ranges; word_is_valid / flat_seg_contains / page_compute_validity / mem_ensure_segments_sorted are verified against that definition with loop invariants (unit_validity, run under C07); [A] qsort with segment_compare returns a permutation ordered by start; Memory_add_segment (before any page exists) appends exactly the requested range and keeps count <= capacity (unit_add_segment); [A] realloc; [A] capacity < 2^40; no segment is added during a run')
     rep.assume('garbage_stop == 1 (the only mode fjm_run.run constructs); C integers are bit-vectors of their exact width (wrap-around modelled; signed overflow and oversized shifts are obligations)')
     rep.assume('model normalisation: words of pages that do not exist read as 0 (as unobservable as an unallocated page)')
     rep.trust('cvc: home-made symbolic executor over the clang-14 JSON AST of the current _fjcore.c (region-based heap: distinct allocations never alias)')
